@@ -1,5 +1,6 @@
 """C14 - a parsed beacon configuration is an immutable value."""
 
+import hashlib
 import random
 import struct
 
@@ -76,7 +77,27 @@ def make_decoder(c2, cfgobj, variant):
         return c2.C2Http(cfgobj, rsa_private_key=keys.rsa("rsa_1024_a"))
     if variant == "aes_rand":
         return c2.C2Http(cfgobj, aes_rand=b"R" * 16)
-    return c2.C2Http(cfgobj, aes_key=b"K" * 16, hmac_key=b"H" * 16)
+    d = hashlib.sha256(b"R" * 16).digest()  # the session keys that belong to aes_rand = R * 16
+    return c2.C2Http(cfgobj, aes_key=d[:16], hmac_key=d[16:])
+
+
+def session_traffic(cfg):
+    """One check-in (metadata with aes_rand = R * 16) and the response carrying one task, produced by the reference
+    beacon / team server for this configuration: (raw request, raw response, expected task tuple)."""
+    from Crypto.Cipher import PKCS1_v1_5
+
+    from .. import peer
+
+    priv = keys.rsa("rsa_1024_a")
+    fields = {n: 0 for n in peer.META_FIELDS[2:]}
+    fields.update(aes_rand=b"R" * 16, bid=4242, pid=77, ansi_cp=1252, oem_cp=437)
+    blob = PKCS1_v1_5.new(priv.public_key()).encrypt(peer.build_metadata(fields, b"HOST\tuser\tproc.exe"))
+    raw_req = peer.RefBeacon(cfg).checkin_request(blob, masks=[b"\x01\x02\x03\x04"] * 8)
+    ts = peer.TeamServer(cfg, priv)
+    ts.masks = [b"\x05\x06\x07\x08"] * 8
+    ts.queue.append((1700000123, 32, b"task-data"))
+    raw_resp = ts.handle(raw_req)
+    return raw_req, raw_resp, (1700000123, 32, b"task-data")
 
 
 def do_operation(c2mod, profmod, cfgobj, decoders, op, record=True):
@@ -92,6 +113,7 @@ def do_operation(c2mod, profmod, cfgobj, decoders, op, record=True):
         return norm(getattr(cfgobj, name))
     if kind == "decoder":
         d = make_decoder(c2mod, cfgobj, op[1])
+        d._verif_variant = op[1]
         if record:
             decoders.append(d)
         return decoder_state(d)
@@ -102,6 +124,7 @@ def do_operation(c2mod, profmod, cfgobj, decoders, op, record=True):
             cl = HttpBeaconClient()
             opts = dict(op[2]) if len(op) > 2 and op[2] else {}
             cl.run(cfgobj, dry_run=True, beacon_id=op[1], user="u", computer="c", process="p", internal_ip="10.0.0.1", arch="x86", pid=4242, **opts)
+        cl.c2http._verif_variant = "client"
         if record:
             decoders.append(cl.c2http)
         return norm([decoder_state(cl.c2http), cl.get_uri, cl.submit_uri, bytes(cl.metadata.dumps()), cl.sleeptime, cl.jitter, cl.user_agent])
@@ -127,6 +150,23 @@ def do_operation(c2mod, profmod, cfgobj, decoders, op, record=True):
         finally:
             random.setstate(state)
         return norm([req.uri, req.params, req.headers, req.body, tuple(back)])
+    if kind == "decode":
+        # a recorded check-in and the response carrying a task, decoded by one of the decoders made so far
+        if not decoders:
+            return None
+        d = decoders[op[1] % len(decoders)]
+        if d is None or getattr(d, "_verif_variant", "client") == "client":
+            return None  # a client's decoder holds the session keys of its own beacon id
+        raw_req, raw_resp, task = op[2]
+        out = []
+        for raw in (raw_req, raw_resp):
+            for pkt in d.iter_recover_http(raw):
+                name = type(pkt).__name__
+                out.append(("metadata", int(pkt.bid), bytes(pkt.aes_rand)) if name == "BeaconMetadata" else ("task", int(pkt.epoch), int(getattr(pkt.command, "value", pkt.command)), bytes(pkt.data)) if name == "TaskPacket" else ("other", name))
+        want = ([("metadata", 4242, b"R" * 16)] if d._verif_variant == "rsa" else []) + [("task",) + tuple(task)]
+        if out != want:
+            raise Violation("history:traffic_decoded_wrongly", f"{d._verif_variant} decoder: check-in + task decoded to {out!r}, sent {want!r}")
+        return norm(out)
     if kind == "assign":
         views = {"settings": cfgobj.settings, "raw_settings": cfgobj.raw_settings, "settings_by_index": cfgobj.settings_by_index, "raw_settings_by_index": cfgobj.raw_settings_by_index, "map": cfgobj.settings_map()}
         m = views[op[1]]
@@ -215,10 +255,28 @@ class State:
 
 def apply_op(st_, op):
     kind = op[0]
+    if kind == "decode":
+        if not st_.decoders:
+            return
+        if getattr(st_, "traffic", None) is None:
+            st_.traffic = session_traffic(st_.cfg)
+        # the recorded session is decoded by EVERY decoder made so far, one after the other (decoders built from one
+        # configuration are independent of each other), the drawn one last
+        order = [i for i in range(len(st_.decoders)) if i != op[1] % len(st_.decoders)] + [op[1] % len(st_.decoders)]
+        for idx in order[:-1]:
+            lib(do_operation, st_.c2, st_.prof, st_.cfgobj, st_.decoders, ("decode", idx, st_.traffic), what=f"operation ('decode', {idx})")
+        op = ("decode", op[1], st_.traffic)
     got = lib(do_operation, st_.c2, st_.prof, st_.cfgobj, st_.decoders, op, what=f"operation {op[:2]!r}")
     # the same single operation on a fresh configuration
     fresh_decoders = []
-    if kind == "transform" and st_.decoders:
+    if kind == "decode":
+        variant = getattr(st_.decoders[op[1] % len(st_.decoders)], "_verif_variant", "client")
+        want = None
+        if variant != "client":
+            fd = make_decoder(st_.c2, st_.fresh(), variant)
+            fd._verif_variant = variant
+            want = lib(do_operation, st_.c2, st_.prof, st_.fresh(), [fd], ("decode", 0, st_.traffic), False, what="fresh decode")
+    elif kind == "transform" and st_.decoders:
         # a fresh decoder of the same kind from a fresh configuration
         idx = op[1] % len(st_.decoders)
         fresh_decoders = [None] * len(st_.decoders)
@@ -329,6 +387,11 @@ def machine(stats, rec):
         @rule(i=st.integers(0, 7), which=st.sampled_from(["get", "post", "response"]), seed=st.integers(0, 1000), data=S.binary(0, 32))
         def transform(self, i, which, seed, data):
             self.do(("transform", i, which, seed, data))
+
+        @precondition(lambda self: self.st is not None and self.st.decoders)
+        @rule(i=st.integers(0, 7))
+        def decode(self, i):
+            self.do(("decode", i))
 
         @rule(name=st.sampled_from(["settings", "raw_settings", "settings_by_index", "raw_settings_by_index", "map"]))
         def assign(self, name):
